@@ -36,6 +36,12 @@ def evaluate(sid, checks, tier='quick'):
     if r.returncode:
         return dict(id=sid, error='worktree: ' + r.stderr[-300:])
     res = dict(id=sid, property=meta['property'], caught_by=[], missed_by=[], checks={})
+    old = os.path.join(d, 'result.json')
+    if os.path.exists(old):
+        try:
+            res['checks'] = json.load(open(old)).get('checks', {})      # keep verdicts of checks not re-run now
+        except Exception:
+            pass
     try:
         env = dict(os.environ, PYTHONPATH=wt)
         demo = os.path.join(d, meta.get('demo', 'demo.py'))
@@ -55,7 +61,8 @@ def evaluate(sid, checks, tier='quick'):
             viol = [l for l in p.stdout.splitlines() if l.startswith('VIOLATION')]
             keys = [l.strip().split(' ')[0] for l in p.stdout.splitlines() if l.strip().startswith('key=')]
             res['checks'][c] = dict(exit=p.returncode, violations=len(viol), keys=keys[:6], tail=(p.stdout + p.stderr)[-300:] if p.returncode not in (0, 1) else '')
-            (res['caught_by'] if p.returncode == 1 and viol else res['missed_by']).append(c)
+        res['caught_by'] = sorted(c for c, v in res['checks'].items() if v['exit'] == 1 and v['violations'])
+        res['missed_by'] = sorted(c for c, v in res['checks'].items() if not (v['exit'] == 1 and v['violations']))
     finally:
         sh(['git', '-C', '/repo', 'worktree', 'remove', '--force', wt])
         shutil.rmtree(wt, ignore_errors=True)
